@@ -130,8 +130,12 @@ _ADAPTED = {}
 
 def kwargs_ok(sig, kw, op, index):
     if op.startswith("adapted:"):
-        # the operation name handed to factories is the adapter's business: any string is accepted here
-        kw = {k: (op if k == "name" and isinstance(v, str) else v) for k, v in kw.items()}
+        # an adapted operation has no einx name: `name` may be a string, None, or left out (not part of this check)
+        kw = {k: v for k, v in kw.items() if k != "name"}
+        if sig in ("shape", "shape_name"):
+            return kw == {}
+        want = {"arg_index", "signature"}
+        return set(kw) == want and kw["arg_index"] == index and hasattr(kw["signature"], "exprs_in") and hasattr(kw["signature"], "exprs_out")
     if sig == "shape":
         return kw == {}
     if sig == "shape_name":
@@ -160,7 +164,8 @@ def work(item):
     HISTORY.extend((kinds[k], sigs[k]) for k in range(len(subset)))
     kw = dict(case["kwargs"])
     kw.update(case["opts"])
-    kw["backend"] = "numpy"  # a call whose tensors are all factories has nothing to infer a backend from
+    if not case["op"].startswith("adapted:"):
+        kw["backend"] = "numpy"  # a call whose tensors are all factories has nothing to infer a backend from (adapted operations belong to their backend)
     res = {"op": case["op"], "desc": case["desc"], "subset": list(subset), "sigs": list(sigs), "kinds": kinds, "history": history_before[-40:], "kwargs": runner.jsonable(case["kwargs"])}
 
     def args_with_factories():
@@ -246,7 +251,7 @@ SPEC = json.loads(r"""{spec}""")
 def tup(v): return tuple(tup(x) for x in v) if isinstance(v, list) else v
 args = [np.array(a["data"], dtype=a["dtype"]).reshape(a["shape"]) for a in SPEC["args"]]
 kw = {{k: tup(v) for k, v in SPEC["kwargs"].items()}}
-kw["backend"] = "numpy"
+if not SPEC["op"].startswith("adapted:"): kw["backend"] = "numpy"
 # earlier factories of this process (only their Python kind and signature matter)
 for kind, sig in SPEC["history"]:
     f = c13.Factory(np.zeros((2,)), sig, kind)
